@@ -94,6 +94,30 @@ theorem session_exact {P : Bytes → Bool} {cfg : Cfg} {dv : LineDev} (hf : Fits
       (∀ x ∈ w'.avail, isHws x = true) :=
   session_in_step hf stripPrompt inputs hg w hw
 
+/-- **get_prompt, exact for every segmentation** (`getPrompt_exact`): one return is written, the
+    device's prompt is returned, only blanks stay unread.  `hfirst` is the hypothesis on `group(0)`:
+    the first match is the first matching line up to surrounding whitespace (validated against
+    CPython each run, like `search_lines`). -/
+theorem get_prompt_exact {P : Bytes → Bool} {cfg : Cfg} {dv : LineDev} (hf : Fits P cfg dv)
+    (hfirst : ∀ x L, (splitNL x).find? P = some L →
+      ∃ m, cfg.prompt.first x = some m ∧ strip m = strip L)
+    (hout : dv.out [] = []) (w : Wire) (hres : ∀ x ∈ w.avail, isHws x = true) :
+    ∃ w', getPrompt cfg dv.onWrite (w, []) = some (strip dv.prompt, (w', [])) ∧
+      w'.writes = w.writes ++ [[NL]] ∧ (∀ x ∈ w'.avail, isHws x = true) :=
+  getPrompt_exact hf hfirst hout w hres
+
+/-- **C01, sessions mixing get_prompt and commands in any order** -/
+theorem mixed_session_exact {P : Bytes → Bool} {cfg : Cfg} {dv : LineDev} (hf : Fits P cfg dv)
+    (hfirst : ∀ x L, (splitNL x).find? P = some L →
+      ∃ m, cfg.prompt.first x = some m ∧ strip m = strip L)
+    (hout : dv.out [] = []) (stripPrompt : Bool) (ops : List COp)
+    (hg : ∀ i, COp.cmd i ∈ ops → GoodCmd P dv i) (w : Wire) (hw : ∀ x ∈ w.avail, isHws x = true) :
+    ∃ rs w', runOps cfg dv.onWrite stripPrompt ops (w, []) = some (rs, (w', [])) ∧
+      rs = ops.map (expectedOp cfg dv stripPrompt) ∧
+      w'.writes = w.writes ++ (ops.map opWrites).flatten ∧
+      (∀ x ∈ w'.avail, isHws x = true) :=
+  mixed_session_in_step hf hfirst hout stripPrompt ops hg w hw
+
 /-! ### non-vacuity: a concrete pattern, device and commands inside the quantifier -/
 
 def exPrompt : Bytes := [114, 49, 35]                     -- "r1#"
